@@ -44,6 +44,8 @@ struct ConnApp {
     dgrams_sent: u64,
     dgrams_got: u64,
     reader: bool,
+    /// identity of the connection this state belongs to (handles are reused)
+    uid: Option<i64>,
 }
 
 #[derive(Default)]
@@ -102,6 +104,15 @@ impl Apps {
             .flat_map(|n| n.conns.keys().map(move |c| (n.idx, *c)))
             .collect();
         for (n, c) in keys {
+            let uid = w.nodes[n].conns[&c].uid;
+            match self.conns.get_mut(&(n, c)) {
+                // state left behind by an earlier connection under the same handle
+                Some(a) if a.uid.is_some_and(|u| u != uid) => {
+                    self.conns.remove(&(n, c));
+                }
+                Some(a) => a.uid = Some(uid),
+                None => {}
+            }
             if !self.conns.contains_key(&(n, c)) {
                 if !self.readers {
                     continue;
@@ -110,6 +121,7 @@ impl Apps {
                 a.read_max = 1 << 20;
                 a.ordered = true;
                 a.reader = true;
+                a.uid = Some(uid);
             }
             let evs = w.take_app_events(n, c);
             if evs.is_empty() {
@@ -355,7 +367,7 @@ impl Apps {
         json!(self
             .conns
             .iter()
-            .map(|((n, c), a)| json!({"n":n,"c":c,"connected":a.connected,"lost":a.lost,
+            .map(|((n, c), a)| json!({"n":n,"c":c,"uid":a.uid.unwrap_or(-1),"connected":a.connected,"lost":a.lost,
                 "out":a.out.iter().map(|o| json!({"id":o.id.map_or(-1, |x| x as i64),"written":o.written,
                     "size":o.size,"fin_ev":o.finished_event,"stopped":o.stopped})).collect::<Vec<_>>(),
                 "in":a.inn.iter().map(|(id,s)| json!({"id":id,"got":s.got,"done":s.done})).collect::<Vec<_>>(),
